@@ -365,7 +365,7 @@ var runs sync.Map // X-Run header -> *univ.Run
 
 func (w *worker) transports() {
 	h := handler.New(w.env.ES)
-	h.AddTransport(transport.Websocket{KeepAlivePingInterval: 5 * time.Millisecond, Upgrader: websocket.Upgrader{CheckOrigin: func(*http.Request) bool { return true }}})
+	h.AddTransport(transport.Websocket{KeepAlivePingInterval: 5 * time.Millisecond, InitTimeout: 60 * time.Millisecond, Upgrader: websocket.Upgrader{CheckOrigin: func(*http.Request) bool { return true }}})
 	h.AddTransport(transport.SSE{})
 	h.AddTransport(transport.MultipartMixed{})
 	h.AddTransport(transport.GET{})
@@ -485,12 +485,39 @@ func (w *worker) httpCase(base, id, q, tr, mode string) {
 
 func (w *worker) wsCase(base string, round int) {
 	for _, proto := range []string{"graphql-ws", "graphql-transport-ws"} {
-		for _, mode := range []string{"client-complete", "abrupt-close", "let-it-end"} {
+		for _, mode := range []string{"client-complete", "abrupt-close", "let-it-end", "silent-until-init-timeout"} {
 			d := websocket.Dialer{Subprotocols: []string{proto}}
 			c, _, err := d.Dial("ws"+strings.TrimPrefix(base, "http"), nil)
 			if err != nil {
 				w.cr.Inconcl = append(w.cr.Inconcl, "ws dial: "+err.Error())
 				return
+			}
+			if mode == "silent-until-init-timeout" {
+				// the client never sends connection_init: the server must give up, close, and leave
+				// no goroutine of this connection behind
+				c.SetReadDeadline(time.Now().Add(10 * time.Second))
+				for {
+					if _, _, err := c.ReadMessage(); err != nil {
+						break
+					}
+				}
+				c.Close()
+				w.cr.Evals++
+				w.count("ws_"+proto+"_"+mode, 1)
+				w.cr.Distinct = append(w.cr.Distinct, fmt.Sprintf("ws|%s|%s|%s", w.name, proto, mode))
+				gs, stable := gdump.WaitGone(patterns, []string{"net/http.(*conn).serve"}, w.ignore, 3*time.Second, 500*time.Millisecond)
+				if len(gs) > 0 && stable {
+					for _, g := range gs {
+						w.ignore[g.ID] = true
+					}
+					w.cr.Violations = append(w.cr.Violations, violation{"leak-after-websocket-" + mode, map[string]any{
+						"why": "goroutines of a websocket connection are still alive after the init timeout closed it (" + proto + ")", "probe": w.name, "goroutines": dumpText(gs)}})
+				} else if len(gs) > 0 {
+					w.cr.Inconcl = append(w.cr.Inconcl, "goroutines still changing after websocket init timeout")
+				} else {
+					w.count("ws_leak_checks_clean", 1)
+				}
+				continue
 			}
 			c.WriteJSON(map[string]any{"type": "connection_init"})
 			start := "start"
